@@ -966,7 +966,7 @@ def run_groups(ck, groups, drv):
 
 
 def run(ck: common.Check):
-    ck.prove(["GeffProps.C09", "GeffProps.C09Links"])
+    ck.prove(["GeffProps.C09", "GeffProps.C09Links", "GeffProps.C09Gen"])
     ck.rule = ("a case = (store, GeffReader call sequence, node mask, edge mask); cases = corpus + for N,E<=4 a "
                "4-property graph per size (fixed 1-D, 2-D, var-length in 4 data layouts, missing-bearing string) x all "
                "2^N+1 node masks x all 2^E+1 edge masks x property subsets + seeded random stores (N<=60, both zarr "
